@@ -2068,6 +2068,7 @@ def r16_text_index_in_range(run):
             raise AnchorError('%s is not reached from the conditional-header accessors any more (entity-tag reader moved?)' % q)
     n_text = n_other = 0
     tabled_used = set()
+    not_examined: List[str] = []
     per_reader = {q: 0 for q in _ETAG_READERS}
     for f in funcs:
         skip = set()
@@ -2207,10 +2208,15 @@ def r16_text_index_in_range(run):
                 tabled_used.add(key)
                 run.ok(what + ' -- tabled: ' + _INDEX_TABLED[key], f.loc(sub), sub)
                 continue
+            if bk == 'seq':
+                # a list / tuple, not text: outside this clause (recorded in the evidence, not an obligation)
+                not_examined.append('%s :: %s' % (f.qual, ast.unparse(sub)))
+                n_other -= 1
+                continue
             if bk != 'text':
-                raise UnknownIdiom('%s: %s indexes a sequence that is not known to be header text, is not proved non-empty and is not in the table '
-                                   'of producer invariants (_INDEX_TABLED)' % (f.qual, short(sub, 60)))
-            if isinstance(sub.value, ast.Name) and f.name.startswith('_') and any(d.how == 'param' for d in rd.at(nid, sub.value.id)) \
+                raise UnknownIdiom('%s: %s indexes something that is not known to be header text or a list, is not proved non-empty and is not in '
+                                   'the table of producer invariants (_INDEX_TABLED)' % (f.qual, short(sub, 60)))
+            if var is None and isinstance(sub.value, ast.Name) and f.name.startswith('_') and any(d.how == 'param' for d in rd.at(nid, sub.value.id)) \
                     and f.qual not in _ETAG_READERS:
                 raise UnknownIdiom('%s: %s indexes a parameter of a private helper; what its callers guarantee is not read' % (f.qual, short(sub, 60)))
             run.fail('an integer index into header text that may be too short (nothing on the way here says the text has %s): IndexError '
@@ -2222,6 +2228,7 @@ def r16_text_index_in_range(run):
     run.ok('entity-tag reader: %s' % '; '.join('%s takes %d integer index(es) (slices never raise)' % (q.rsplit('.', 2)[-2] + '.' + q.rsplit('.', 1)[-1], n)
                                              for q, n in sorted(per_reader.items())), p.func(_ETAG_READERS[0]).loc(), 'entity-tag reader: integer indices')
     run.extra['c09_r16'] = {'functions_swept': len(funcs), 'text_indices': n_text, 'other_sequence_indices': n_other, 'tabled': len(tabled_used),
+                            'list_indices_neither_proved_nor_tabled (outside the clause)': not_examined,
                             'tabled_not_met': sorted('%s :: %s' % k for k in set(_INDEX_TABLED) - tabled_used)}
 
 
